@@ -1226,11 +1226,13 @@ impl PrettyPrint for Statement<'_> {
         match self {
             Statement::DefineVariable(DefineVariable {
                 name,
+                decorators,
                 expr,
                 readable_type,
                 ..
             }) => {
-                m::keyword("let")
+                decorator_markup(decorators)
+                    + m::keyword("let")
                     + m::space()
                     + m::identifier(name.to_compact_string())
                     + m::operator(":")
